@@ -29,13 +29,18 @@ func (f *Default) parseDeviceData(s string) (id agd.DeviceID, extID *extHumanID,
 		return "", extID, err
 	}
 
+	id, err = agd.NewDeviceID(s)
+	if err != nil {
+		// Don't wrap the error, because it's informative enough as is.
+		return "", nil, err
+	}
+
+	// Only lowercase the valid IDs, which are ASCII-only, since the Unicode
+	// case folding maps some non-ASCII characters to the ASCII ones.
+	//
 	// TODO(a.garipov):  Remove once the profile database learns how to match
 	// IDs in a case-insensitive way.
-	s = strings.ToLower(s)
-	id, err = agd.NewDeviceID(s)
-
-	// Don't wrap the error, because it's informative enough as is.
-	return id, nil, err
+	return agd.DeviceID(strings.ToLower(string(id))), nil, nil
 }
 
 // isLikelyExtHumanID returns true if s likely contains extended human-readable
@@ -63,14 +68,18 @@ func (f *Default) parseExtHumanID(s string) (extID *extHumanID, err error) {
 		return nil, err
 	}
 
-	// TODO(a.garipov):  Remove once the profile database learns how to match
-	// IDs in a case-insensitive way.
-	profIDStr := strings.ToLower(parts[1])
-	profID, err := agd.NewProfileID(profIDStr)
+	profID, err := agd.NewProfileID(parts[1])
 	if err != nil {
 		// Don't wrap the error, because it's informative enough as is.
 		return nil, err
 	}
+
+	// Only lowercase the valid IDs, which are ASCII-only, since the Unicode
+	// case folding maps some non-ASCII characters to the ASCII ones.
+	//
+	// TODO(a.garipov):  Remove once the profile database learns how to match
+	// IDs in a case-insensitive way.
+	profID = agd.ProfileID(strings.ToLower(string(profID)))
 
 	humanID, err := f.humanIDParser.ParseNormalized(parts[2])
 	if err != nil {
